@@ -126,3 +126,6 @@ impl<T> ErrorExt for Result<T, ErrorImpl> {
 }
 /// ghost record: this error is what a link probe (ProcfsHandle::readlink inside open_follow) answered
 pub uninterp spec fn probe_result(e: Error) -> bool;
+/// ghost record: the error was produced by a step of the procfs lookup itself (base directory, walk, mount check), not by the
+/// machinery that builds a temporary unmasked handle
+pub uninterp spec fn own_lookup_error(e: Error) -> bool;
